@@ -25,4 +25,4 @@ for id in "$@"; do
   echo "$out" | grep -A1 VIOLATION | grep -v "VIOLATION\|^--" | head -2 | cut -c1-300
 done
 # restore generated files to the real tree
-for t in tools/py2*.py; do /venv/bin/python "$t" --repo /repo --out lean/PGM/Generated >/dev/null 2>&1; done
+for pass in 1 2; do for t in tools/py2*.py; do /venv/bin/python "$t" --repo /repo --out lean/PGM/Generated >/dev/null 2>&1; done; done
